@@ -49,6 +49,10 @@ def _validate(ck, sw, name, beh, label, scale=1):
         ck.cov["impl_drift"].append({"run": label, "steps_differing_from_model": summ["drift"],
                                      "first": summ.get("first_drift")})
     for sid, i, key in bads:
+        if "/harness/" in key:
+            # the driver issued something the monitor cannot interpret: tool trouble, never a verdict
+            ck.inconclusive.append("%s at step %d of scenario %d (%s)" % (key, i, sid, label))
+            continue
         ck.report_bad(key, "SlotSeq trace rejected at step %d of scenario %d (%s)" % (i, sid, label),
                       lambda sid=sid, i=i, key=key: {
                           "property": ck.pid, "component": "slotseq", "rule": key, "step": i, "scale": scale,
